@@ -1,5 +1,6 @@
 import OH.Proofs.SynNum
 import OH.Proofs.SynTotal
+import OH.Proofs.SentRule8
 /-
 C05 — the parser accepts the supported grammar and builds the denoted expression.
 Property theorems only (helper lemmas: OH/Proofs/Peg.lean, SynBase.lean, SynNum.lean, Syn*.lean).
@@ -53,6 +54,39 @@ theorem C05_accepted_fields_in_range (s : String) (e : Expr) (h : Parser.parse s
 /-- empty input is rejected (`&ANY` at the head of the entry rule) -/
 theorem C05_empty_rejected :
     (match Parser.parseChars [] with | .error .parser => true | _ => false) = true := by decide +kernel
+
+/-! ### the whole sentence -/
+
+/-- **C05, main statement**: EVERY well-formed sentence of the supported grammar — the OSM grammar with
+the documented relaxations, as data in OH/Spec/Sent.lean: optional spaces, one-digit hours / days /
+weeks, `off`, explicit `open`, `day`/`days`, leading zeros, `[1-3]`, `Jan 5-10`, `2020+`, `Jan 5+`,
+`week1`, holidays and weekdays in either order joined by `,` or a space, a comment before and/or after
+the selectors, six spellings of the separators, `:` / `: ` / a space after the wide-range selectors —
+parses to exactly the expression it denotes: same selectors, ranges, steps, offsets, time spans,
+modifier, comments and rule separators.  `render` and `denote` are written without any parser; the
+driver draws its `c05.den` lines from the same definitions. -/
+theorem C05_every_sentence_parses_to_its_denotation (s : OH.Spec.Sent.Sentence) (h : s.wf = true) :
+    Parser.parseChars s.render = .ok s.denote :=
+  OH.Proofs.Sent.sentence_parses s h
+
+/-- the same on strings -/
+theorem C05_every_sentence_parses_string (s : OH.Spec.Sent.Sentence) (h : s.wf = true) :
+    Parser.parse (String.ofList s.render) = .ok s.denote :=
+  OH.Proofs.Sent.sentence_parses_string s h
+
+/-- non-vacuity: a well-formed sentence using most constructs and relaxations
+(`"c":Mo[1-3,-1] +02 days,PH 9:00 - 12:00,(sunrise+0:30)-sunset+ off "x"; 2020+ Jan 5-10 week1: 10:00+`) -/
+example :
+    let c : OH.Spec.Sent.Clock := ⟨9, 0, true⟩
+    let s : OH.Spec.Sent.Sentence :=
+      ⟨⟨.sel (.comment "c")
+          (some (.daysHols [.nth 0 [.range 1 3, .last 1] (some ⟨⟨2, 1⟩, false, true⟩)] false [.pub none]))
+          [.range (.clock c) true true (.clock ⟨12, 0, false⟩) false,
+           .range (.var (.shifted .sunrise false (.clock ⟨0, 30, true⟩))) false false (.var (.plain .sunset)) true],
+        ⟨.off, some "x"⟩⟩,
+       [(.semiSpace, ⟨.sel (.sel [.plus 2020] [] (some ⟨false, [.single ⟨1, true⟩]⟩) .colonSpace) none
+          [.from_ (.clock ⟨10, 0, false⟩)], ⟨.none, none⟩⟩)]⟩
+    s.wf = true := by decide +kernel
 
 /-- non-vacuity: a concrete sentence in a concrete context -/
 example : ParsesTo g_day_offset buildDayOffset " +12 days".toList [','] 12 :=
